@@ -128,7 +128,7 @@ def _sim_history(c, K, recount=True, coherence=False, handicaps=(0, -1.5)):
             t_before = _dt.datetime.utcnow()
             n_tr_log = len(rec.trades)
             act = c.choose("action%d" % k, ["place-new-trade", "place-same-trade", "place-in-with-trade", "process-packages", "fill-all", "fill-first", "fill-last", "cancel-all",
-                                            "suspend-lapse", "remove-runner"] + (["replace-all", "place-same-order-again"] if coherence else []))
+                                            "suspend-lapse", "remove-runner", "place-same-order-again"] + (["replace-all"] if coherence else []))
             c.tag("a%d" % k, act)
             with c.guard("step%d:%s" % (k, act)):
                 if act in ("place-new-trade", "place-same-trade", "place-in-with-trade"):
@@ -285,6 +285,14 @@ def h10e(c):
             c.cover("all-complete")
 
 
+def h10f(c, n=2):
+    """crash / restart (C11 world): the runner accounting of the restarted instance (trades and live trades charged) equals that of the
+    instance that placed the bets, whatever state the adopted bets are in (resting, partly matched, complete)"""
+    from .c11 import h11b
+    from .c06 import _Only
+    h11b(_Only(c, ("live-trade-count", "trade-count", "no-accounting-for-untouched", "no-exception")), n=n)
+
+
 def h10c(c, K=3):
     """K-step public-API histories in simulation with the recount after every step"""
     with cm.config_set(simulated=True):
@@ -375,6 +383,8 @@ HARNESSES = [
     Harness("H10a", h10a, pattern="P1 kernel-with-oracle", clock_modules=("flumine.strategy.runnercontext",), requires=["accepted", "refused"]),
     Harness("H10b-sim", h10b_sim2, quick=dict(n=2), pattern="P2 inductive step", requires=["handled"]),
     Harness("H10b-live", h10b_live, quick=dict(n=1), thorough=dict(n=2), pattern="P5 + recount", requires=["handled"], max_paths=(300000, 3000000)),
+    Harness("H10f", h10f, quick=dict(n=2), thorough=dict(n=3), pattern="P4 relational (pre-crash vs restarted instance)", requires=["restart"], selfcheck=False,
+            max_paths=(400000, 5000000), wall_s=(300, 3000)),
     Harness("H10e", h10e, pattern="P5 (late response on a completed trade) + P3", requires=["trade-reused", "all-complete"], selfcheck=False),
     Harness("H10c", h10c, quick=dict(K=3), thorough=dict(K=4), pattern="P3 bounded history", requires=["placed", "refused", "filled", "all-complete", "trade-completed"],
             max_paths=(300000, 3000000), wall_s=(300, 3000)),
